@@ -101,7 +101,10 @@ def t_tup(ts):
 def nestings(t, other="n1"):
     """the tree alone and inside arrays / tuples"""
     return [t, t_arr([t]), t_arr([other, t]), t_arr([t_arr([t]), t_arr([other])]), t_tup([other, t]),
-            t_tup([t, t_tup([t, other])])]
+            t_tup([t, t_tup([t, other])]),
+            # three and four levels deep (the element helpers recurse through different functions per level)
+            t_tup([other, t_tup([other, t_tup([other, t])])]), t_tup([t_tup([t_tup([t, other]), other]), other]),
+            t_arr([t_arr([t_arr([other, t])])]), t_tup([other, t_tup([other, t_tup([other, t_tup([t, other])])])])]
 
 
 # ---------------------------------------------------------------------------------------------
